@@ -292,7 +292,9 @@ int main(int argc, char **argv) {
             Loop l; bool scalar = *g::chance(25);
             l.has_cat = scalar || *g::chance(50); l.cat = scalar ? ustr() : ustr(u"cat");
             int ncols = *g::range(1, 5), nrows = scalar ? *g::range(0, 1) : *rc::gen::weightedElement<int>({{1, 0}, {2, 1}, {3, 2}, {3, 3}, {2, 5}, {1, 8}});
-            for (int i = 0; i < ncols; i++) l.names.push_back(u16("_c" + std::to_string(i)));
+            // item names: lower case, or (40%) spelled with capitals -- the stored original spelling then differs from the normalised name
+            int spell = *rc::gen::weightedElement<int>({{6, 0}, {2, 1}, {2, 2}});
+            for (int i = 0; i < ncols; i++) l.names.push_back(u16((spell == 0 || (spell == 2 && i % 2) ? "_c" : "_C") + std::to_string(i)));
             bool dups = *g::chance(15);
             for (int r = 0; r < nrows; r++) { std::vector<Value> row; for (int i = 0; i < ncols; i++) row.push_back(dups ? Value::chr(u"same") : *val); l.rows.push_back(row); }
             b.loops.push_back(l);
